@@ -219,45 +219,84 @@ Proof.
   - destruct (x =? y) eqn:E2; [|reflexivity]. apply N.eqb_eq in E2. subst y. rewrite E. reflexivity.
 Qed.
 
-Lemma event_redraw st s id p img hash : Inv st s -> lookup id (k_imgs st) = Some (img, hash) ->
-  let s' := store_run (store_forget id (clear_log s)) (handle_items st (EvKitty id (Some p) true)) in
+Lemma draw_items_empty st img h pos : ~ nonempty img -> draw_items st img h pos = [].
+Proof.
+  intros H. unfold draw_items, nonempty in *.
+  replace ((im_height img =? 0) || (im_width img =? 0)) with true by lia. reflexivity.
+Qed.
+Lemma draw_items_cached st img h pos x : nonempty img -> lookup (image_id h) (k_imgs st) = Some x ->
+  draw_items st img h pos = [put_item (image_id h) (placement_id pos) (qval st)].
+Proof.
+  intros [H1 H2] Hl. unfold draw_items, cached.
+  replace ((im_height img =? 0) || (im_width img =? 0)) with false by lia. rewrite Hl. reflexivity.
+Qed.
+Lemma draw_items_fresh st img h pos : nonempty img -> lookup (image_id h) (k_imgs st) = None ->
+  draw_items st img h pos =
+  tx_items (image_id h) (qval st) img ++ [put_item (image_id h) (placement_id pos) (qval st)].
+Proof.
+  intros [H1 H2] Hl. unfold draw_items, cached.
+  replace ((im_height img =? 0) || (im_width img =? 0)) with false by lia. rewrite Hl. reflexivity.
+Qed.
+
+
+Lemma cur_eqb_refl c : cur_eqb c c = true.
+Proof. destruct c as [[a b]|]; [|reflexivity]. unfold cur_eqb, pos_eqb. cbn [fst snd]. rewrite !N.eqb_refl. reflexivity. Qed.
+
+(* a reported placement id within the protocol's range names an admissible position, and the handler
+   derives that very id again for it *)
+Lemma to_pos_ok p : p <= ID_MAX -> in_dom (placement_to_pos p) /\ placement_to_pos p <> (65535, 65535).
+Proof.
+  unfold ID_MAX, placement_to_pos, in_dom. rewrite max_dim_const. cbn [fst snd]. intros Hp. split.
+  - split; zify_divmod; lia.
+  - intros E. inversion E as [[E1 E2]]. zify_divmod. lia.
+Qed.
+Lemma placement_roundtrip p : 1 <= p <= ID_MAX -> placement_id (placement_to_pos p) = p.
+Proof.
+  unfold ID_MAX, placement_to_pos, placement_id, placement_index. rewrite max_dim_const, max_id_const.
+  intros Hp. zify_divmod. lia.
+Qed.
+
+Lemma event_redraw lost st s id p img hash : Inv false st s -> lookup id (k_imgs st) = Some (img, hash) ->
+  let pre := pre_err lost id s in
+  let pos := placement_to_pos p in
+  let s' := store_run pre (handle_items st (EvKitty id (Some p) true)) in
   t_sent s' = [(id, content_of img)] /\
-  In (id, placement_id (placement_to_pos p), Some (placement_to_pos p)) (t_places s').
+  t_places s' = (id, placement_id pos, Some pos)
+                :: filter (fun q => negb (is_place id (placement_id pos) q))
+                     (filter (fun q => negb (place_id q =? id)) (t_places pre)) /\
+  t_cursor s' = t_cursor pre /\
+  pids_named (handle_items st (EvKitty id (Some p) true)) = Some [placement_id pos].
 Proof.
   intros HI Hl. pose proof HI as [Hc He Hp Hi Hv Hpc].
   destruct (Hc _ _ _ Hl) as (Hid & Hwf & Hne).
+  destruct (pre_err_facts lost id s) as (Hs0 & Hp0' & He0).
   cbn [handle_items]. rewrite Hl.
   set (st1 := mkKitty (remove_key id (k_imgs st)) (Some 2)).
   set (pos := placement_to_pos p).
   assert (Hl1 : lookup (image_id hash) (k_imgs st1) = None) by (rewrite Hid; apply lookup_remove_same).
-  unfold draw_items. destruct Hne as [Hh Hw].
-  replace ((im_height img =? 0) || (im_width img =? 0)) with false by lia.
-  unfold cached. rewrite Hl1.
-  set (s0 := store_forget id (clear_log s)).
-  assert (HI0 : Inv st1 s0).
-  { apply (inv_forget st st1 (clear_log s) id); [apply lookup_remove_same| |apply inv_clear, HI].
-    intros id' Hne'. apply lookup_remove_other, Hne'. }
-  cbv zeta. rewrite !store_run_cons.
-  assert (Hp0 : t_pending s0 = None) by exact Hp.
-  set (s1 := item_step s0 ISave).
-  assert (E1 : s1 = set_cursor (t_cursor s0) (Some (t_cursor s0)) s0)
+  rewrite (draw_items_fresh st1 img hash pos Hne Hl1).
+  set (s0 := pre_err lost id s) in *.
+  cbv zeta. split; [|split; [|split]].
+  4:{ rewrite pids_named_eq. cbn [flat_map item_pids app]. rewrite !flat_map_app. unfold tx_items.
+      rewrite pids_chunks. cbn [flat_map app]. rewrite pids_put. reflexivity. }
+  all: rewrite !store_run_cons.
+  all: assert (Hp0 : t_pending s0 = None) by (rewrite Hp0'; exact Hp).
+  all: set (s1 := item_step s0 ISave).
+  all: assert (E1 : s1 = set_cursor (t_cursor s0) (Some (t_cursor s0)) s0)
     by (unfold s1; cbn [item_step]; rewrite Hp0; reflexivity).
-  set (s2 := item_step s1 (IMoveTo (fst pos + 1) (snd pos + 1))).
-  assert (E2 : s2 = set_cursor (Some (N.pred (N.max (fst pos + 1) 1), N.pred (N.max (snd pos + 1) 1)))
-                               (t_saved s1) s1)
-    by (unfold s2; cbn [item_step]; rewrite E1; cbn [set_cursor t_pending]; rewrite Hp0; reflexivity).
-  assert (HI2 : Inv st1 s2) by (rewrite E2, E1; apply inv_set_cursor, inv_set_cursor, HI0).
-  rewrite store_run_app.
-  destruct (inv_draw_fresh st1 s2 (k_suppress st) img hash (placement_id pos) (qval st1) HI2 Hwf (conj Hh Hw) Hl1
-              (placement_id_range pos)) as (HI3 & Hs3 & Hin3 & _ & _).
-  set (s3 := store_run s2 (tx_items (image_id hash) (qval st1) img ++
-                           [put_item (image_id hash) (placement_id pos) (qval st1)])) in *.
-  cbn [store_run fold_left item_step]. rewrite (inv_pending _ _ HI3). cbn [set_cursor t_sent t_places].
-  rewrite Hid in *. split.
-  - rewrite Hs3, E2, E1. reflexivity.
-  - assert (Ecur : t_cursor s2 = Some pos).
-    { rewrite E2. cbn [set_cursor t_cursor]. rewrite !pred_max_succ. destruct pos; reflexivity. }
-    rewrite Ecur in Hin3. exact Hin3.
+  all: set (s2 := item_step s1 (IMoveTo (fst pos + 1) (snd pos + 1))).
+  all: assert (E2 : s2 = set_cursor (Some pos) (t_saved s1) s1)
+    by (unfold s2; cbn [item_step]; rewrite E1; cbn [set_cursor t_pending]; rewrite Hp0, !pred_max_succ;
+        destruct pos; reflexivity).
+  all: assert (Hp2 : t_pending s2 = None) by (rewrite E2, E1; exact Hp0).
+  all: rewrite store_run_app.
+  all: rewrite (run_draw_fresh s2 (image_id hash) (placement_id pos) (qval st1) img Hp2 Hwf Hne
+                  (image_id_range hash) (placement_id_range pos)).
+  all: cbn [store_run fold_left item_step t_pending set_cursor t_sent t_places t_cursor t_saved].
+  all: rewrite ?Hid.
+  - rewrite E2, E1. cbn [set_cursor t_sent]. rewrite Hs0. reflexivity.
+  - rewrite E2, E1. cbn [set_cursor t_places t_cursor]. reflexivity.
+  - rewrite E2, E1. cbn [set_cursor t_saved]. reflexivity.
 Qed.
 
 Lemma places_filter2 id pid (l : list place) :
@@ -300,7 +339,7 @@ Section World.
 
   (* ---------- simulation between the handler state and the predicate's tracker ---------- *)
   Record Sim (st : kitty) (t : track) : Prop := mkSim {
-    sim_inv : Inv st (tk_store t);
+    sim_inv : Inv false st (tk_store t);
     sim_sent : forall x, nmem x (tk_sent t) = nmem x (keys st);
     sim_ids : ids_ok (tk_ids t);
     sim_where : where_ok (tk_where t);
@@ -326,25 +365,6 @@ Section World.
     rewrite only_gfx_chunks. reflexivity.
   Qed.
 
-  Lemma draw_items_empty st img h pos : ~ nonempty img -> draw_items st img h pos = [].
-  Proof.
-    intros H. unfold draw_items, nonempty in *.
-    replace ((im_height img =? 0) || (im_width img =? 0)) with true by lia. reflexivity.
-  Qed.
-  Lemma draw_items_cached st img h pos x : nonempty img -> lookup (image_id h) (k_imgs st) = Some x ->
-    draw_items st img h pos = [put_item (image_id h) (placement_id pos) (qval st)].
-  Proof.
-    intros [H1 H2] Hl. unfold draw_items, cached.
-    replace ((im_height img =? 0) || (im_width img =? 0)) with false by lia. rewrite Hl. reflexivity.
-  Qed.
-  Lemma draw_items_fresh st img h pos : nonempty img -> lookup (image_id h) (k_imgs st) = None ->
-    draw_items st img h pos =
-    tx_items (image_id h) (qval st) img ++ [put_item (image_id h) (placement_id pos) (qval st)].
-  Proof.
-    intros [H1 H2] Hl. unfold draw_items, cached.
-    replace ((im_height img =? 0) || (im_width img =? 0)) with false by lia. rewrite Hl. reflexivity.
-  Qed.
-
   (* draw *)
   Lemma check_draw st t img h c pos : Sim st t -> In (img, h, c) imgs -> pos_ok pos ->
     exists t', check_step contents t (SDraw c pos) (fst (draw st img h pos)) 0 = Good t' /\
@@ -353,11 +373,11 @@ Section World.
     intros HS Hin Hpos. destruct HS as [HI Hsent Hids Hwh Hcache].
     destruct (Wimg img h c Hin) as [Hwf Hc].
     pose proof HI as [Hcw He Hp Hi Hv Hpc].
-    pose proof (step_draw_ok st (tk_store t) img h pos HI Hwf) as [HI' _].
+    pose proof (step_draw_ok false true st (tk_store t) img h pos HI Hwf) as [HI' _].
     rewrite term_step_items in HI' by assumption. rewrite snd_step_draw in HI'.
     cbn [pre_store step_items] in HI'.
     unfold check_step. rewrite (parse_draw st img h pos Hwf). cbv zeta.
-    rewrite (inv_errs _ _ HI'), (inv_pending _ _ HI'), Hc.
+    rewrite (inv_errs _ _ _ HI'), (inv_pending _ _ _ HI'), Hc.
     change (0 =? 0) with true. cbn [negb]. rewrite only_gfx_draw. cbn [negb].
     cbn [c_w c_h content_rec].
     set (pre := clear_log (tk_store t)) in *.
@@ -411,10 +431,7 @@ Section World.
       rewrite N.eqb_refl. cbn [andb]. rewrite timage_eqb_refl. cbn [negb].
       replace (placement_id pos =? 0) with false by lia.
       unfold places_of at 1 2. cbn [t_places clear_log map fst]. rewrite places_filter.
-      assert (Hfa : filter (fun p => negb (place_id p =? image_id h)) (t_places pre) = t_places pre).
-      { apply filter_all. intros p Hinp. specialize (Hpc p Hinp).
-        destruct (place_id p =? image_id h) eqn:E; [|reflexivity]. apply N.eqb_eq in E. rewrite E in Hpc. contradiction. }
-      rewrite Hfa in HI''. rewrite Hfa, pl_same_add. cbn [negb]. rewrite Hlw.
+      rewrite map_fst_filter_id, pl_same_add. cbn [negb]. rewrite Hlw.
       eexists. split; [reflexivity|].
       constructor; cbn [tk_store tk_sent tk_ids tk_where k_imgs]; try assumption; try exact HI''.
       + intros x. change (nmem x (image_id h :: tk_sent t)) with ((x =? image_id h) || nmem x (tk_sent t)).
@@ -432,7 +449,7 @@ Section World.
     intros HS Hin Hpos. destruct HS as [HI Hsent Hids Hwh Hcache].
     destruct (Wimg img h c Hin) as [Hwf Hc].
     pose proof HI as [Hcw He Hp Hi Hv Hpc].
-    pose proof (step_erase_ok st (tk_store t) img h pos HI Hwf) as [HI' _].
+    pose proof (step_erase_ok false true st (tk_store t) img h pos HI Hwf) as [HI' _].
     rewrite term_step_items in HI' by assumption. cbn [step snd pre_store step_items] in HI'.
     pose proof (image_id_range h) as Hid.
     destruct (learn_id_ok img h c (tk_ids t) Hin Hids) as (ids' & Hlid & Hids' & Hcin & Hsub).
@@ -441,7 +458,7 @@ Section World.
     set (s' := store_run pre [del_item (image_id h) (option_map placement_id pos)]) in *.
     assert (Es : s' = _) by (unfold s'; apply (run_del pre (image_id h) (option_map placement_id pos) Hp Hid);
       destruct pos; cbn [option_map]; [apply placement_id_range|exact I]).
-    rewrite (inv_errs _ _ HI'), (inv_pending _ _ HI').
+    rewrite (inv_errs _ _ _ HI'), (inv_pending _ _ _ HI').
     change (0 =? 0) with true. cbn [negb]. change (only_gfx [del_item (image_id h) (option_map placement_id pos)]) with true.
     cbn [negb]. pose proof HI' as HI''. rewrite Es in HI''.
     rewrite ids_named_eq, pids_named_eq. cbn [flat_map]. rewrite ids_del. cbn [app all_some option_map forallb negb].
@@ -461,15 +478,15 @@ Section World.
   Qed.
 
   (* handle *)
-  Lemma check_event st t ev : Sim st t ->
+  Lemma check_event lost st t ev : Sim st t ->
     exists t', check_step contents t
-                 (match ev with EvKitty id pl err => SResp id pl err | EvOther => SOther end)
+                 (match ev with EvKitty id pl err => SResp id pl err lost | EvOther => SOther end)
                  (fst (fst (handle st ev))) (if snd (handle st ev) then 1 else 0) = Good t' /\
                Sim (snd (fst (handle st ev))) t'.
   Proof.
     intros HS. destruct HS as [HI Hsent Hids Hwh Hcache].
     pose proof HI as [Hcw He Hp Hi Hv Hpc].
-    pose proof (step_event_ok st (tk_store t) ev HI) as [HI' _].
+    pose proof (step_event_ok false lost st (tk_store t) ev ltac:(discriminate) HI) as [HI' _].
     rewrite term_step_items in HI' by (try assumption; exact I). cbn [step step_items] in HI'.
     assert (Hsnd : snd (let '(b, st', r) := handle st ev in (b, if r then 1 else 0, st')) = snd (fst (handle st ev)))
       by (destruct (handle st ev) as [[b st'] r]; reflexivity).
@@ -480,7 +497,7 @@ Section World.
     destruct ev as [id pl err|].
     2:{ (* some other event: nothing written, false returned *)
         cbn [handle fst snd handle_items pre_store store_run fold_left] in *.
-        rewrite (inv_errs _ _ HI'), (inv_pending _ _ HI'). cbn [N.eqb andb].
+        rewrite (inv_errs _ _ _ HI'), (inv_pending _ _ _ HI'). cbn [N.eqb andb].
         change (0 =? 0) with true. cbn [andb].
         eexists. split; [reflexivity|].
         constructor; cbn [with_store tk_store tk_sent tk_ids tk_where]; assumption. }
@@ -488,13 +505,21 @@ Section World.
     2:{ (* OK response *)
         assert (E : handle_items st (EvKitty id pl false) = []) by (destruct pl; reflexivity).
         rewrite E in *. cbn [handle fst snd pre_store store_run fold_left] in *.
-        rewrite (inv_errs _ _ HI'), (inv_pending _ _ HI').
+        rewrite (inv_errs _ _ _ HI'), (inv_pending _ _ _ HI').
         change (1 =? 1) with true. cbn [negb].
         eexists. split; [reflexivity|].
         constructor; cbn [with_store tk_store tk_sent tk_ids tk_where]; assumption. }
     (* error response *)
-    cbn [pre_store] in HI'.
-    set (pre := store_forget id (clear_log (tk_store t))) in *.
+    rewrite pre_store_err in HI'.
+    change (match (if lost then true else false) with _ => _ end) with (pre_err lost id (tk_store t)) || idtac.
+    assert (Epre : (if lost then store_forget id (clear_log (tk_store t)) else clear_log (tk_store t)) =
+                   pre_err lost id (tk_store t)) by reflexivity.
+    replace (match lost with
+             | true => store_forget id (clear_log (tk_store t))
+             | false => clear_log (tk_store t)
+             end) with (pre_err lost id (tk_store t)) by (destruct lost; reflexivity).
+    set (pre := pre_err lost id (tk_store t)) in *.
+    destruct (pre_err_facts lost id (tk_store t)) as (Hs0 & Hp0' & He0). fold pre in Hs0, Hp0', He0.
     set (sent0 := filter (fun i => negb (i =? id)) (tk_sent t)).
     assert (Hsent0 : forall x, nmem x sent0 = nmem x (filter (fun y => negb (y =? id)) (keys st))).
     { intros x. unfold sent0. rewrite !nmem_filter, Hsent. reflexivity. }
@@ -503,8 +528,8 @@ Section World.
         assert (E : handle_items st (EvKitty id pl true) = []) by (unfold handle_items; rewrite Hl; destruct pl; reflexivity).
         assert (Eh : handle st (EvKitty id pl true) = ([], st, true)) by (unfold handle; rewrite Hl; reflexivity).
         rewrite E, Eh in *. cbn [fst snd store_run fold_left] in *.
-        rewrite (inv_errs _ _ HI'), (inv_pending _ _ HI').
-        change (1 =? 1) with true. cbn [negb]. cbn [pre store_forget clear_log t_sent].
+        rewrite (inv_errs _ _ _ HI'), (inv_pending _ _ _ HI').
+        change (1 =? 1) with true. cbn [negb]. rewrite cur_eqb_refl, Hs0, pl_same_refl. cbn [negb].
         eexists. split; [reflexivity|].
         constructor; cbn [tk_store tk_sent tk_ids tk_where]; try assumption.
         intros x. fold sent0. rewrite Hsent0. unfold keys. rewrite filter_keys_absent by exact Hl. reflexivity. }
@@ -515,16 +540,19 @@ Section World.
           by (unfold handle; rewrite Hl; reflexivity).
         assert (E : handle_items st (EvKitty id None true) = []) by reflexivity.
         rewrite E, Eh in *. cbn [fst snd store_run fold_left] in *.
-        rewrite (inv_errs _ _ HI'), (inv_pending _ _ HI').
-        change (1 =? 1) with true. cbn [negb]. cbn [pre store_forget clear_log t_sent].
+        rewrite (inv_errs _ _ _ HI'), (inv_pending _ _ _ HI').
+        change (1 =? 1) with true. cbn [negb]. rewrite cur_eqb_refl, Hs0, pl_same_refl. cbn [negb].
         eexists. split; [reflexivity|].
         constructor; cbn [tk_store tk_sent tk_ids tk_where k_imgs]; try assumption.
         - intros x. fold sent0. rewrite Hsent0. unfold keys. cbn [k_imgs]. rewrite keys_remove. reflexivity.
         - intros id' img1 h1 Hl1. cbn [k_imgs] in Hl1. apply remove_key_sub in Hl1 as [_ Hl1]. exact (Hcache _ _ _ Hl1). }
     (* placement: cursor save, move, re-transmission, placement, cursor restore *)
-    destruct (event_redraw st (tk_store t) id p img hash HI Hl) as [Hs' Hin'].
-    cbv zeta in Hs', Hin'. fold pre in Hs', Hin'.
-    set (s' := store_run pre (handle_items st (EvKitty id (Some p) true))) in *.
+    destruct (event_redraw lost st (tk_store t) id p img hash HI Hl) as (Hs' & Hpl' & Hcur' & Hpids).
+    cbv zeta in Hs', Hpl', Hcur'. fold pre in Hs', Hpl', Hcur'.
+    set (its := handle_items st (EvKitty id (Some p) true)) in *.
+    set (s' := store_run pre its) in *.
+    set (pos' := placement_to_pos p) in *.
+    set (pid := placement_id pos') in *.
     assert (Eh : snd (handle st (EvKitty id (Some p) true)) = true /\
                  k_imgs (snd (fst (handle st (EvKitty id (Some p) true)))) = (id, (img, hash)) :: remove_key id (k_imgs st)).
     { unfold handle. rewrite Hl.
@@ -532,8 +560,8 @@ Section World.
       rewrite (draw_fresh (mkKitty (remove_key id (k_imgs st)) (Some 2)) img hash (placement_to_pos p) Hne Hl1).
       cbn [fst snd k_imgs]. rewrite Hid. split; reflexivity. }
     destruct Eh as [Eret Eimgs]. rewrite Eret.
-    rewrite (inv_errs _ _ HI'), (inv_pending _ _ HI').
-    change (1 =? 1) with true. cbn [negb]. rewrite Hs'.
+    rewrite (inv_errs _ _ _ HI'), (inv_pending _ _ _ HI').
+    change (1 =? 1) with true. cbn [negb]. rewrite Hcur', cur_eqb_refl. cbn [negb]. rewrite Hs'.
     destruct (Hcache _ _ _ Hl) as (c & Hinw & Hcid).
     destruct (cid_of_id_some id (tk_ids t) c Hcid) as (c' & Hc').
     rewrite Hc'.
@@ -541,28 +569,45 @@ Section World.
     { apply cid_of_id_in in Hc'. destruct (Hids c' id Hc') as (img2 & h2 & Hin2 & Hid2).
       apply (Wid img2 h2 c' img hash c Hin2 Hinw). congruence. }
     subst c'. destruct (Wimg img hash c Hinw) as [_ Hcont]. rewrite Hcont.
-    rewrite N.eqb_refl, timage_eqb_refl. cbn [andb negb].
-    assert (Hplaced : match where_pos id p (tk_where t) with
-                      | Some pos => existsb (fun e => let '(i', p', c') := e in
-                                                      (i' =? id) && (p' =? p) &&
-                                                      match c' with Some cp => pos_eqb cp pos | None => false end)
-                                            (t_places s')
-                      | None => true
-                      end = true).
-    { destruct (where_pos id p (tk_where t)) as [pos|] eqn:Ew; [|reflexivity].
-      destruct (where_pos_sound id p (tk_where t) pos Hwh Ew) as [Hpp [Hd Hc0]].
-      assert (Hinv : placement_to_pos p = pos) by (rewrite Hpp; apply placement_inverse; assumption).
-      rewrite Hinv in Hin'. rewrite <- Hpp in Hin'.
-      apply existsb_exists. eexists. split; [exact Hin'|]. cbn beta iota.
-      rewrite !N.eqb_refl. apply (proj2 (pos_eqb_eq pos pos) eq_refl). }
-    rewrite Hplaced.
-    eexists. split; [reflexivity|].
-    constructor; cbn [tk_store tk_sent tk_ids tk_where]; try assumption.
-    - intros x. change (nmem x (id :: sent0)) with ((x =? id) || nmem x sent0).
-      rewrite Hsent0. unfold keys. rewrite Eimgs. cbn [map fst]. rewrite keys_remove. reflexivity.
-    - intros id' img1 h1 Hl1. rewrite Eimgs in Hl1. cbn [lookup] in Hl1. destruct (id =? id') eqn:E.
-      + apply N.eqb_eq in E. inversion Hl1; subst. exists c. split; assumption.
-      + apply remove_key_sub in Hl1 as [_ Hl1]. exact (Hcache _ _ _ Hl1).
+    rewrite N.eqb_refl, timage_eqb_refl. cbn [andb negb]. rewrite Hpids.
+    pose proof (placement_id_range pos') as Hpidr. fold pid in Hpidr.
+    replace (pid =? 0) with false by lia.
+    assert (Hafter : pl_same (places_of s') ((id, pid) :: filter (fun q => negb (fst q =? id)) (places_of pre)) = true).
+    { unfold places_of. rewrite Hpl'. cbn [map fst]. rewrite places_filter, map_fst_filter_id. apply pl_same_add. }
+    rewrite Hafter. cbn [negb].
+    (* the tracker after the call, whatever the position table becomes *)
+    assert (Hsim : forall w', where_ok w' -> Sim (snd (fst (handle st (EvKitty id (Some p) true))))
+                                               (mkTrack s' (tk_ids t) (id :: sent0) w')).
+    { intros w' Hw'. constructor; cbn [tk_store tk_sent tk_ids tk_where]; try assumption.
+      - intros x. change (nmem x (id :: sent0)) with ((x =? id) || nmem x sent0).
+        rewrite Hsent0. unfold keys. rewrite Eimgs. cbn [map fst]. rewrite keys_remove. reflexivity.
+      - intros id' img1 h1 Hl1. rewrite Eimgs in Hl1. cbn [lookup] in Hl1. destruct (id =? id') eqn:E.
+        + apply N.eqb_eq in E. inversion Hl1; subst. exists c. split; assumption.
+        + apply remove_key_sub in Hl1 as [_ Hl1]. exact (Hcache _ _ _ Hl1). }
+    destruct (ID_MAX <? p) eqn:Ebig.
+    { eexists. split; [reflexivity|]. apply Hsim, Hwh. }
+    assert (Hple : p <= ID_MAX) by lia.
+    destruct (to_pos_ok p Hple) as [Hd' Hnc']. fold pos' in Hd', Hnc'.
+    assert (Hrt : (1 <=? p) && negb (p =? pid) = false).
+    { destruct (1 <=? p) eqn:E1; [|reflexivity]. cbn [andb].
+      unfold pid, pos'. rewrite placement_roundtrip by lia. rewrite N.eqb_refl. reflexivity. }
+    rewrite Hrt.
+    assert (Hfind : find (fun e : place => (place_id e =? id) && (place_pid e =? pid)) (t_places s') =
+                    Some (id, pid, Some pos')).
+    { rewrite Hpl'. cbn [find place_id place_pid fst snd]. rewrite !N.eqb_refl. reflexivity. }
+    rewrite Hfind.
+    assert (Hwp : match where_pos id pid (tk_where t) with
+                  | Some pos => negb (pos_eqb pos' pos)
+                  | None => false
+                  end = false).
+    { destruct (where_pos id pid (tk_where t)) as [pos|] eqn:Ew; [|reflexivity].
+      destruct (where_pos_sound id pid (tk_where t) pos Hwh Ew) as [Hpp [Hd Hc0]].
+      destruct (placement_inj pos' pos Hd' Hd Hpp) as [X|[[X Y]|[X Y]]]; try contradiction.
+      rewrite (proj2 (pos_eqb_eq pos' pos) X). reflexivity. }
+    rewrite Hwp. rewrite (in_range_dom pos' Hd').
+    destruct (learn_where_ok id pos' (tk_where t) Hwh (conj Hd' Hnc')) as (w' & Hlw & Hw' & _).
+    fold pid in Hlw. rewrite Hlw.
+    eexists. split; [reflexivity|]. apply Hsim, Hw'.
   Qed.
 
   (* ---------- all histories ---------- *)
@@ -571,7 +616,7 @@ Section World.
     | CDraw k pos => (k < length imgs)%nat /\ pos_ok pos
     | CErase k (Some pos) => (k < length imgs)%nat /\ pos_ok pos
     | CErase k None => (k < length imgs)%nat
-    | CResp _ _ _ | COther => True
+    | CResp _ _ _ _ | COther => True
     end.
 
   Theorem check_history_model : forall ops st t, Sim st t -> Forall op_ok ops ->
@@ -579,7 +624,7 @@ Section World.
   Proof.
     induction ops as [|o r IH]; intros st t HS Hok; [reflexivity|].
     inversion Hok as [|? ? Ho Hr]; subst. cbn [map run check_history].
-    destruct o as [k pos|k pos|id pl err|]; cbn [model_op spec_op op_ok] in *.
+    destruct o as [k pos|k pos|id pl err lost|]; cbn [model_op spec_op op_ok] in *.
     - destruct Ho as [Hk Hpos]. pose proof (nth_In imgs dummy_img Hk) as Hin.
       destruct (nth k imgs dummy_img) as [[img h] c]. cbn [snd step].
       destruct (check_draw st t img h c pos HS Hin Hpos) as (t' & Hc & HS').
@@ -591,10 +636,10 @@ Section World.
       assert (Hp : match pos with Some p => pos_ok p | None => True end) by (destruct pos; [apply Ho|exact I]).
       destruct (check_erase st t img h c pos HS Hin Hp) as (t' & Hc & HS').
       rewrite Hc, (IH st t' HS' Hr). reflexivity.
-    - cbn [step]. destruct (check_event st t (EvKitty id pl err) HS) as (t' & Hc & HS').
+    - cbn [step]. destruct (check_event lost st t (EvKitty id pl err) HS) as (t' & Hc & HS').
       destruct (handle st (EvKitty id pl err)) as [[b st'] ret] eqn:E. cbn [fst snd] in *.
       rewrite Hc, (IH st' t' HS' Hr). reflexivity.
-    - cbn [step]. destruct (check_event st t EvOther HS) as (t' & Hc & HS').
+    - cbn [step]. destruct (check_event true st t EvOther HS) as (t' & Hc & HS').
       destruct (handle st EvOther) as [[b st'] ret] eqn:E. cbn [fst snd] in *.
       rewrite Hc, (IH st' t' HS' Hr). reflexivity.
   Qed.
